@@ -76,6 +76,54 @@ def exit_after_cases(run):
                       None if exp is None and nloops == len(steps) else nloops - 1, case))
     run.model_disagree('exit_after', cl.IMPORTS, 'run_exit_after', '(Z * Z) * list Z', cases)
 
+def pipeline_exit_cases(run):
+    """matching propagate/obey policies: an exit (clean or error) at any filter of a 3-filter chain ends EVERY filter, over
+    delayed links (the exit announcement is still in flight when the exiting filter tears its sockets down)"""
+    import pipes
+    rng = run.rng
+    for it in range(run.n(24, 300)):
+        where = rng.choice(['src', 'r1', 'sink'])
+        kind = rng.choice(['clean', 'error'])
+        pol = rng.choice([('all', 'all'), ('all', 'all'), ('error', 'error'), ('error', 'all'), ('all', 'error'), ('clean', 'clean')])
+        if (kind == 'error' and pol[0] == 'clean') or (kind == 'clean' and (pol[0] == 'error' or pol[1] == 'error')) or (kind == 'error' and pol[1] == 'clean'):
+            pol = ('all', 'all')
+        k = rng.randint(2, 6)
+        delay = rng.choice([(0, 0), (0, 30), (20, 90), (50, 120)])     # the last two outlast the 40 ms between the announcement and the close
+        seed = rng.randrange(10 ** 6)
+        a0, a1 = pipes.addr(0), pipes.addr(1)
+        specs = [dict(id='src', kind='src', n=(k if where == 'src' and kind == 'clean' else 10 ** 6), outputs=a0[0], outputs_required='r1', period=0.02),
+                 dict(id='r1', kind='relay', sources=a0[1], outputs=a1[0], outputs_required='sink'),
+                 dict(id='sink', kind='sink', sources=a1[1])]
+        by = {s_['id']: s_ for s_ in specs}
+        if not (where == 'src' and kind == 'clean'):
+            if where == 'src':
+                by['src']['n'] = 10 ** 6
+                by['src']['raise_after'] = k
+            else:
+                by[where]['exit_at' if kind == 'clean' else 'raise_at'] = k
+        case = dict(where=where, kind=kind, policy=pol, at=k, delay_ms=delay, seed=seed)
+        bw = None
+        if rng.random() < 0.4:
+            # raw images over a link of finite bandwidth: the exit announcement queues up behind the last frame in the
+            # publisher's socket and is still there when the socket is closed 20 ms later
+            by['src']['image_kb'] = rng.choice([600, 2000])
+            by['src']['outputs_jpg'] = False
+            bw = rng.choice([5, 20])
+        case.update(image_kb=by['src'].get('image_kb'), bandwidth_mbps=bw)
+        p = pipes.Pipeline(specs, seed=seed, delay_ms=delay, prop_exit=pol[0], obey_exit=pol[1], bandwidth_mbps=bw)
+        p.run(120, max_steps=400000)
+        run.seen(('pexit', repr(case)))
+        run.count('pipeline-exit:%s@%s' % (kind, where))
+        run.count('pipeline-exit:policy=%s/%s' % pol)
+        for fid in ('src', 'r1', 'sink'):
+            res = p.results.get((fid, 0))
+            if res is None or res == 'killed':       # still running when the simulation was stopped
+                run.violation('pipeline:not-terminated filter=%s exit=%s@%s policy=%s/%s' % (fid, kind, where, pol[0], pol[1]),
+                              'a %s exit at %s (after %d frames) with policies propagate=%s obey=%s: filter %s was still running 120 s later; results %s'
+                              % (kind, where, k, pol[0], pol[1], fid, p.results), case)
+                break
+
+
 def main():
     run = vlib.Run('C08')
     run.coq_gate()
@@ -102,6 +150,7 @@ def main():
     run.samples.append(dict(family='lifecycle', script=cases[5][2]['script'], trace=cases[5][2]['observed'], result=cases[5][2]['result']))
     obey_cases(run)
     exit_after_cases(run)
+    pipeline_exit_cases(run)
     import corr_proto as cp
     cp.proto_component_check(run, {'C08'}, 0, run.n(200, 5000))     # exit announcements travel as OOB messages through the sender machine
     run.rule = ('scripted Filter subclass under the real Filter.run over the in-memory ZeroMQ: every lifecycle point (constructor, init before/after '
@@ -110,8 +159,8 @@ def main():
                 'all obey policies x both exit kinds on the real on_exit_msg; exit_after in all forms against a virtual clock; the real ZMQSender on '
                 'request/OOB/CLOSE histories (exit announcements from registered, unregistered and evicted clients must be handed up); '
                 'non-trivial = at least one fault; distinct by hash of the script')
-    run.partial = ['whole-pipeline termination with matching policies (an exit at any filter of a chain/tee/rejoin reaches every neighbour) is explored in '
-                   'pipeline mode (C06/C03 checks), not proved: C08_pipeline_terminates_partial',
+    run.partial = ['whole-pipeline termination with matching policies (an exit at any filter of a chain reaches every filter, over delayed links) is explored in '
+                   'pipeline mode (this check and C03), not proved: C08_pipeline_terminates_partial',
                    'an MQ constructor that itself fails half-way (sender bound, receiver address invalid) is outside the script space']
     run.assumptions = ['callbacks are atomic with respect to the stop event (the scripted filter sets it at iteration boundaries)']
     sys.exit(run.finish())
